@@ -56,10 +56,11 @@ type TermFactory struct {
 	unfold   map[int]*Term // application of a defined specification function -> its unfolded body
 	ranges []*Term  // global range facts (Bool terms) asserted for typed constants / loads
 	fresh  int
+	hintPair map[int][2]*Term // cut hints: encoded sequence equality -> the two sequences it compares
 }
 
 func NewFactory() *TermFactory {
-	return &TermFactory{allocSeq: map[int]int{}, hash: map[string]*Term{}, funs: map[string]string{}, declared: map[int]bool{}, seqs: map[string]SeqInfo{}, dtypes: map[string]string{}, unfold: map[int]*Term{}}
+	return &TermFactory{hintPair: map[int][2]*Term{}, allocSeq: map[int]int{}, hash: map[string]*Term{}, funs: map[string]string{}, declared: map[int]bool{}, seqs: map[string]SeqInfo{}, dtypes: map[string]string{}, unfold: map[int]*Term{}}
 }
 
 func (f *TermFactory) key(op string, sort Sort, name string, args []*Term) string {
